@@ -46,6 +46,15 @@ const baseS = int64(1700000000) // 2023-11-14 22:13:20 UTC; next UTC midnight is
 
 func pick[T any](r *rand.Rand, xs []T) T { return xs[r.Intn(len(xs))] }
 
+func contains(xs []string, s string) bool {
+	for _, x := range xs {
+		if x == s {
+			return true
+		}
+	}
+	return false
+}
+
 func randHex(r *rand.Rand, n int) string {
 	b := make([]byte, n)
 	r.Read(b)
@@ -194,6 +203,16 @@ func (g *scriptGen) term() *rt.Term {
 	r := g.r
 	if len(g.terms) > 0 && r.Intn(100) < 18 {
 		c := *pick(r, g.terms)
+		// the same comparison in the other spelling of its value: .n = 5 beside .n = "5" are different terms
+		// (numeric against text comparison) although their values print alike without the quotes
+		if r.Intn(3) == 0 && (c.Op == "=" || c.Op == "!=") && c.Scope != "" {
+			switch {
+			case c.Kind == rt.KNum:
+				c.Kind, c.Str, c.Lit, c.Tick = rt.KStr, c.Lit, "", false
+			case c.Kind == rt.KStr && contains(numVals, c.Str):
+				c.Kind, c.Lit, c.Str, c.Tick = rt.KNum, c.Str, "", false
+			}
+		}
 		return &c
 	}
 	t := &rt.Term{}
@@ -408,7 +427,7 @@ func genScript(r *rand.Rand) *rt.Script {
 func flattenQ(e *traceql_parser.AttrSelectorExp, out *[]string) {
 	for e != nil {
 		if e.Head != nil {
-			*out = append(*out, e.Head.Label+" "+e.Head.Op+" "+e.Head.Val.String())
+			*out = append(*out, e.Head.Label+" "+e.Head.Op+" "+valueToken(e.Head.Val))
 		}
 		if e.ComplexHead != nil {
 			*out = append(*out, "(")
@@ -420,6 +439,18 @@ func flattenQ(e *traceql_parser.AttrSelectorExp, out *[]string) {
 		}
 		e = e.Tail
 	}
+}
+
+// valueToken: the token the parser read for a value, taken from the parsed fields (not from Value.String(), which is
+// what the planner keys terms by and therefore part of what is being judged).
+func valueToken(v traceql_parser.Value) string {
+	switch {
+	case v.StrVal != nil:
+		return v.StrVal.Str
+	case v.FVal != "":
+		return v.FVal
+	}
+	return v.TimeVal
 }
 
 func flattenR(q *rt.Seq, out *[]string) {
